@@ -536,12 +536,438 @@ pub fn c11(seed: u64, budget: u64) -> FOut {
     out
 }
 
+/// C09: one record per address; identities move forward; own address never active; discard
+pub fn c09(seed: u64, budget: u64) -> FOut {
+    let mut out = FOut::default();
+    out.rule = "seeded single-instance histories (300 calls, several generations per address incl. the instance's own); after every call: no two records share an address, no active record bears the own address, number of records <= distinct addresses told so far, every Rename(a,b) has b winning against a, the identity stored for an address only changes to one that wins (until the address is forgotten), and a datagram whose sender is not active after header processing (Down or superseded) leaves every other record untouched and reaches the handler with no item. distinct = histories with at least one Rename or own-address record".into();
+    for h in 0..budget {
+        let mut hits: Vec<(String, J)> = vec![];
+        let mut told: HashSet<u16> = HashSet::new();
+        let mut interesting = false;
+        history(seed.wrapping_mul(6151).wrapping_add(h), 300, |c, _| { if c.max_packet_size < 64 { c.max_packet_size = 200; } }, |pre, input, effs, _o, post, rep| {
+            if let Input::ChangeIdentity(n) = input {
+                if n.a != pre.identity.a {
+                    return false; // B3
+                }
+            }
+            match input {
+                Input::Data(b) => {
+                    if let Some((h, ups, _)) = split_datagram(b) {
+                        told.insert(h.src.a);
+                        for u in ups {
+                            if let Ok(m) = dec_member(&mut &u[..]) {
+                                told.insert(m.id().a);
+                            }
+                        }
+                    } else if let Ok(h) = dec_header(&mut &b[..]) {
+                        told.insert(h.src.a);
+                        // partial parses may still have delivered some updates: be generous
+                        for a in 0..=9u16 {
+                            told.insert(a);
+                        }
+                    }
+                }
+                Input::ApplyMany(l, _) => {
+                    for m in l {
+                        told.insert(m.id.a);
+                    }
+                }
+                _ => {}
+            }
+            let mut seen = HashSet::new();
+            for m in &post.members {
+                if !seen.insert(m.id.a) {
+                    hits.push(("C09:duplicate-address".into(), J::s(format!("{:?} after {:?}", post.members, input))));
+                }
+                if m.id.a == post.identity.a {
+                    interesting = true;
+                    if m.state != 2 {
+                        hits.push(("C09:own-address-active".into(), J::s(format!("{:?} after {:?}", m, input))));
+                    }
+                }
+            }
+            if post.members.len() > told.len() {
+                hits.push(("C09:more-records-than-addresses".into(), J::s(format!("{:?}", input))));
+            }
+            for e in effs {
+                if let Eff::Notify(MNote::Rename(a, b)) = e {
+                    interesting = true;
+                    use foca::Identity;
+                    if a.a != b.a || !b.win_addr_conflict(a) {
+                        hits.push(("C09:rename-to-loser".into(), J::s(format!("{a:?} -> {b:?} on {input:?}"))));
+                    }
+                }
+            }
+            for m in &pre.members {
+                if let Some(n) = post.members.iter().find(|x| x.id.a == m.id.a) {
+                    use foca::Identity;
+                    if n.id != m.id && !n.id.win_addr_conflict(&m.id) {
+                        hits.push(("C09:identity-fallback".into(), J::s(format!("{:?} -> {:?} on {input:?}", m.id, n.id))));
+                    }
+                    let from_old = effs.iter().any(|e| matches!(e, Eff::Notify(MNote::Rename(a, _)) if *a == m.id));
+                    let to_new = effs.iter().any(|e| matches!(e, Eff::Notify(MNote::Rename(_, b)) if *b == n.id));
+                    if n.id != m.id && !(from_old && to_new) {
+                        hits.push(("C09:replacement-without-rename".into(), J::s(format!("{:?} -> {:?} on {input:?}", m.id, n.id))));
+                    }
+                }
+            }
+            // discard
+            if let Input::Data(b) = input {
+                if let Ok(hd) = dec_header(&mut &b[..]) {
+                    use foca::Identity;
+                    let accepted = rep.outcome == Outcome::Done || matches!(rep.outcome, Outcome::Failed(_));
+                    // activity of the sender right after its header has been processed,
+                    // derived from the record held before the call
+                    let rec = pre.members.iter().find(|m| m.id.a == hd.src.a);
+                    let inactive = match rec {
+                        Some(m) if m.id == hd.src => m.state == 2,
+                        Some(m) => m.id.win_addr_conflict(&hd.src),
+                        None => false,
+                    };
+                    let processed = accepted && hd.src.a != pre.identity.a && (hd.dst == pre.identity);
+                    if inactive && processed && hd.message != foca::Message::TurnUndead {
+                        let others_same = pre.members.iter().filter(|m| m.id.a != hd.src.a).all(|m| post.members.contains(m))
+                            && post.members.iter().filter(|m| m.id.a != hd.src.a).all(|m| pre.members.contains(m));
+                        if !others_same || !rep.handler_log.is_empty() || post.customs != pre.customs || post.identity != pre.identity {
+                            hits.push(("C09:payload-of-inactive-sender-processed".into(), J::s(format!("{input:?} pre={:?} post={:?} handler={:?}", pre.members, post.members, rep.handler_log))));
+                        }
+                    }
+                }
+            }
+            true
+        });
+        out.runs += 1;
+        if interesting {
+            out.distinct.insert(h);
+        }
+        for (s, d) in hits {
+            out.hit(&s, d);
+        }
+        if h < 1 {
+            out.samples.push(J::s(format!("history seed {} (300 calls)", seed.wrapping_mul(6151).wrapping_add(h))));
+        }
+    }
+    out
+}
+
+/// C13: timer epochs with an exactly-once runtime
+pub fn c13(seed: u64, budget: u64) -> FOut {
+    let mut out = FOut::default();
+    out.rule = "histories (300 calls) on the real crate with an exactly-once timer runtime: every timer delivered comes from the pending set (earliest deadline first in 'ordered' histories, random order otherwise), interleaved with datagrams and API calls that flip connection state / identity and with set_config; all 8 combinations of periodic tasks. After every call: connected => exactly one pending probe timer and exactly one pending timer per enabled periodic task carrying the current token (at most one when the task is currently disabled); not connected => no pending token-carrying timer with the current token; a delivered timer with a stale token has no effect; ordered delivery never errors; any order yields Ok or IncompleteProbeCycle. distinct = histories with at least 3 connection-epoch changes".into();
+    for h in 0..budget {
+        let hs = seed.wrapping_mul(50021).wrapping_add(h);
+        let mut g = G::new(hs);
+        let mut cfg = gen_cfg(&mut g);
+        let m = g.below(8);
+        cfg.periodic_announce = if m & 1 != 0 { Some((5000 * MS, 2)) } else { None };
+        cfg.periodic_announce_down = if m & 2 != 0 { Some((7000 * MS, 2)) } else { None };
+        cfg.periodic_gossip = if m & 4 != 0 { Some((300 * MS, 2)) } else { None };
+        if cfg.max_packet_size < 64 {
+            cfg.max_packet_size = 200;
+        }
+        let ordered = g.chance(50);
+        let id = VId { a: 9, g: 1, k: g.below(4) as u8, pad: 0 };
+        let mut inst = Inst::new(id, &cfg, g.next(), 0, 255);
+        let mut pending: Vec<(u128, u64, MTimer)> = vec![]; // deadline, seqno, timer
+        let mut seqno = 0u64;
+        let mut now: u128 = 0;
+        let mut epochs = 0u64;
+        let mut dummy: Vec<(u128, MTimer)> = vec![];
+        let mut hit: Option<(String, J)> = None;
+        for step in 0..300 {
+            let pre = inst.snapshot();
+            let deliver = !pending.is_empty() && g.chance(45);
+            let input = if deliver {
+                let idx = if ordered {
+                    let mut best = 0;
+                    for (i, p) in pending.iter().enumerate() {
+                        let b = &pending[best];
+                        let key = |x: &(u128, u64, MTimer)| (x.0, timer_seq(&x.2), x.1);
+                        if key(p) < key(b) {
+                            best = i;
+                        }
+                    }
+                    best
+                } else {
+                    g.below(pending.len() as u64) as usize
+                };
+                let (dl, _, t) = pending.swap_remove(idx);
+                if dl > now {
+                    now = dl;
+                }
+                Input::Timer(t)
+            } else {
+                loop {
+                    let i = gen_input(&mut g, &pre, &mut dummy, &cfg);
+                    match i {
+                        Input::Timer(_) => continue,
+                        Input::ChangeIdentity(n) if n.a != pre.identity.a => continue,
+                        _ => break i,
+                    }
+                }
+            };
+            let (effs, o) = run_real(&mut inst.foca, &input);
+            if inst.poisoned || matches!(o, Outcome::Panicked(_)) {
+                break;
+            }
+            let post = inst.snapshot();
+            if post.token != pre.token {
+                epochs += 1;
+            }
+            if epochs > 200 {
+                break;
+            }
+            for e in &effs {
+                if let Eff::Submit(t, after) = e {
+                    seqno += 1;
+                    pending.push((now + after, seqno, t.clone()));
+                }
+            }
+            if let Input::Timer(t) = &input {
+                if let Some(k) = t.token() {
+                    if k != pre.token && (!effs.is_empty() || post != pre) {
+                        hit = Some(("C13:stale-timer-has-effect".into(), J::s(format!("{t:?} token now {} effects {effs:?}", pre.token))));
+                    }
+                }
+                match &o {
+                    Outcome::Done => {}
+                    Outcome::Failed(4) if !ordered => {}
+                    other => {
+                        hit = Some((format!("C13:timer-error:{}", if ordered { "ordered" } else { "any-order" }), J::s(format!("{t:?} -> {other:?} (history {hs} step {step})"))));
+                    }
+                }
+            }
+            // accounting
+            let cur = |f: &dyn Fn(&MTimer) -> bool| pending.iter().filter(|p| f(&p.2)).count();
+            let tok = post.token;
+            let probe = cur(&|t| matches!(t, MTimer::Probe(k) if *k == tok));
+            let ann = cur(&|t| matches!(t, MTimer::Announce(k) if *k == tok));
+            let annd = cur(&|t| matches!(t, MTimer::AnnounceDown(k) if *k == tok));
+            let gos = cur(&|t| matches!(t, MTimer::Gossip(k) if *k == tok));
+            let other_tok = cur(&|t| matches!(t, MTimer::Indirect(_, k) | MTimer::SuspectToDown(_, _, k) if *k == tok));
+            if post.conn == 1 {
+                let chk = |n: usize, enabled: bool, started: bool| if enabled { n == 1 } else { n <= 1 && (started || n == 0) };
+                if probe != 1
+                    || !chk(ann, post.cfg.periodic_announce.is_some(), cfg.periodic_announce.is_some())
+                    || !chk(annd, post.cfg.periodic_announce_down.is_some(), cfg.periodic_announce_down.is_some())
+                    || !chk(gos, post.cfg.periodic_gossip.is_some(), cfg.periodic_gossip.is_some())
+                {
+                    hit = Some(("C13:loop-count-while-active".into(), J::s(format!("probe={probe} announce={ann} announce_down={annd} gossip={gos} after {input:?} (history {hs} step {step}) cfg={:?}", post.cfg))));
+                }
+            } else if probe + ann + annd + gos + other_tok != 0 {
+                hit = Some(("C13:effective-timer-while-inactive".into(), J::s(format!("probe={probe} announce={ann} announce_down={annd} gossip={gos} other={other_tok} conn={} after {input:?} (history {hs} step {step})", post.conn))));
+            }
+            if hit.is_some() {
+                break;
+            }
+        }
+        out.runs += 1;
+        if epochs >= 3 {
+            out.distinct.insert(h);
+        }
+        if let Some((s, d)) = hit {
+            out.hit(&s, d);
+        }
+        if h < 1 {
+            out.samples.push(J::s(format!("history seed {hs}: ordered={ordered} periodic mask={m} epochs={epochs}")));
+        }
+    }
+    out
+}
+
+fn timer_seq(t: &MTimer) -> u8 {
+    match t {
+        MTimer::Indirect(..) => 0,
+        MTimer::Probe(_) => 1,
+        MTimer::SuspectToDown(..) => 2,
+        MTimer::Announce(_) => 3,
+        MTimer::Gossip(_) => 4,
+        MTimer::RemoveDown(_) => 5,
+        MTimer::AnnounceDown(_) => 6,
+    }
+}
+
+/// rejected inputs of every class, relative to the current state
+pub fn gen_rejected(g: &mut G, s: &MState) -> Input {
+    loop {
+        match g.below(10) {
+            0 => return Input::Data(vec![7u8; s.cfg.max_packet_size as usize + 1 + g.below(5) as usize]),
+            1 => {
+                // undecodable header
+                let n = g.below(12) as usize;
+                let b: Vec<u8> = (0..n).map(|_| g.below(256) as u8).collect();
+                if b.len() <= s.cfg.max_packet_size as usize && dec_header(&mut &b[..]).is_err() {
+                    return Input::Data(b);
+                }
+            }
+            2 => {
+                // own identity / own address as source
+                let mut d = gen_datagram(g, s);
+                if let Ok(h) = dec_header(&mut &d[..]) {
+                    let mut h2 = h.clone();
+                    h2.src = if g.chance(50) { s.identity } else { VId { g: g.below(4) as u16, ..s.identity } };
+                    let old = header_bytes(&h).len();
+                    let mut nb = header_bytes(&h2);
+                    nb.extend_from_slice(&d[old..]);
+                    d = nb;
+                    if d.len() <= s.cfg.max_packet_size as usize {
+                        return Input::Data(d);
+                    }
+                }
+            }
+            3 => {
+                // wrong destination (not an Announce to our address)
+                let d = gen_datagram(g, s);
+                if let Ok(h) = dec_header(&mut &d[..]) {
+                    if h.src.a != s.identity.a && h.message != foca::Message::Announce {
+                        let mut h2 = h.clone();
+                        h2.dst = VId { a: 7, g: 0, k: 0, pad: 0 };
+                        let mut nb = header_bytes(&h2);
+                        let rest = &d[header_bytes(&h).len()..];
+                        if rest.len() != 1 {
+                            nb.extend_from_slice(rest);
+                            if nb.len() <= s.cfg.max_packet_size as usize {
+                                return Input::Data(nb);
+                            }
+                        }
+                    }
+                }
+            }
+            4 => {
+                // exactly one byte after the header
+                let d = gen_datagram(g, s);
+                if let Ok(h) = dec_header(&mut &d[..]) {
+                    if h.src.a != s.identity.a {
+                        let mut nb = header_bytes(&h);
+                        nb.push(g.below(256) as u8);
+                        if nb.len() <= s.cfg.max_packet_size as usize {
+                            return Input::Data(nb);
+                        }
+                    }
+                }
+            }
+            5 => {
+                let t = forged_timer(g, s);
+                if let Some(k) = t.token() {
+                    if k != s.token {
+                        return Input::Timer(t);
+                    }
+                }
+            }
+            6 => {
+                if s.conn != 2 {
+                    return Input::ReuseDown;
+                }
+            }
+            7 => return Input::ChangeIdentity(s.identity),
+            8 => {
+                let mut c = s.cfg.clone();
+                c.probe_period += MS;
+                return Input::SetConfig(c);
+            }
+            _ => return Input::AddBroadcast(vec![]),
+        }
+    }
+}
+
+/// C17: twin runs with and without rejected inputs
+pub fn c17(seed: u64, budget: u64) -> FOut {
+    let mut out = FOut::default();
+    out.rule = "twin runs on the real crate: a seeded base history (200 calls) is replayed on a second identical instance with rejected inputs of every class (oversize, undecodable header, own identity/address source, wrong destination, one trailing byte, stale-epoch timers, NotUndead, SameIdentity, InvalidConfig, empty add_broadcast) inserted at random points; every effect list and result of the base inputs and the final full state (incl. RNG position) must be identical, and each inserted input must itself produce no effect; also the same history twice gives identical streams. distinct = twin runs with at least 5 insertions of at least 3 classes".into();
+    for h in 0..budget {
+        let hs = seed.wrapping_mul(92821).wrapping_add(h);
+        // run A, recording inputs
+        let mut g = G::new(hs);
+        let cfg = gen_cfg(&mut g);
+        let id = VId { a: 9, g: 1, k: g.below(4) as u8, pad: 0 };
+        let rng_seed = g.next();
+        let (mode, mask) = (g.below(4) as u8, g.below(256) as u8);
+        let mut a = Inst::new(id, &cfg, rng_seed, mode, mask);
+        let mut pending: Vec<(u128, MTimer)> = vec![];
+        let mut inputs: Vec<Input> = vec![];
+        let mut obs_a: Vec<(Vec<Eff>, Outcome)> = vec![];
+        for _ in 0..200 {
+            let pre = a.snapshot();
+            let input = gen_input(&mut g, &pre, &mut pending, &cfg);
+            let (effs, o) = run_real(&mut a.foca, &input);
+            for e in &effs {
+                if let Eff::Submit(t, after) = e {
+                    pending.push((*after, t.clone()));
+                }
+            }
+            inputs.push(input);
+            let stop = matches!(o, Outcome::Panicked(_));
+            obs_a.push((effs, o));
+            if stop {
+                break;
+            }
+        }
+        let final_a = a.snapshot();
+        let rng_a = a.foca.verif_rng().clone();
+        // run A' (same history again): determinism
+        let mut a2 = Inst::new(id, &cfg, rng_seed, mode, mask);
+        for (i, input) in inputs.iter().enumerate() {
+            let r = run_real(&mut a2.foca, input);
+            if r != obs_a[i] {
+                out.hit("C17:nondeterministic", J::s(format!("history {hs} step {i} {input:?}")));
+                break;
+            }
+        }
+        // run B with insertions
+        let mut b = Inst::new(id, &cfg, rng_seed, mode, mask);
+        let mut g2 = G::new(hs ^ 0x5555);
+        let mut inserted = 0u64;
+        let mut classes: HashSet<&'static str> = HashSet::new();
+        let mut bad: Option<(String, J)> = None;
+        'outer: for (i, input) in inputs.iter().enumerate() {
+            while g2.chance(20) {
+                let pre = b.snapshot();
+                let rj = gen_rejected(&mut g2, &pre);
+                let rng0 = b.foca.verif_rng().clone();
+                let (effs, o) = run_real(&mut b.foca, &rj);
+                let post = b.snapshot();
+                inserted += 1;
+                classes.insert(rj.kind());
+                if !effs.is_empty() || post != pre || *b.foca.verif_rng() != rng0 || matches!(o, Outcome::Panicked(_)) {
+                    bad = Some(("C17:rejected-input-leaves-trace".into(), J::s(format!("history {hs}: {rj:?} -> {o:?} effects {effs:?} state_changed={}", post != pre))));
+                    break 'outer;
+                }
+            }
+            let r = run_real(&mut b.foca, input);
+            if r != obs_a[i] {
+                bad = Some(("C17:insertion-changes-history".into(), J::s(format!("history {hs} step {i} {input:?}: {:?} vs {:?}", r, obs_a[i]))));
+                break;
+            }
+        }
+        if bad.is_none() && !b.poisoned && !a.poisoned {
+            let final_b = b.snapshot();
+            if final_b != final_a || *b.foca.verif_rng() != rng_a {
+                bad = Some(("C17:insertion-changes-final-state".into(), J::s(format!("history {hs}"))));
+            }
+        }
+        out.runs += 1;
+        if inserted >= 5 && classes.len() >= 3 {
+            out.distinct.insert(h);
+        }
+        if let Some((s, d)) = bad {
+            out.hit(&s, d);
+        }
+        if h < 1 {
+            out.samples.push(J::s(format!("history seed {hs}: {} base calls, {inserted} rejected inputs inserted ({classes:?})", inputs.len())));
+        }
+    }
+    out
+}
+
 pub fn run(prop: &str, seed: u64, budget: u64) -> Option<FOut> {
     match prop {
         "C01" => Some(c01(seed, budget)),
         "C19" => Some(c19(seed, budget)),
         "C06" => Some(c06(seed, budget)),
         "C11" => Some(c11(seed, budget)),
+        "C09" => Some(c09(seed, budget)),
+        "C13" => Some(c13(seed, budget)),
+        "C17" => Some(c17(seed, budget)),
         _ => None,
     }
 }
